@@ -589,6 +589,12 @@ package ctfe
 //@ site json.Unmarshal#1 as ju
 //@ requires r != nil && r.Body != nil
 //@ modifies nothing
+//@ site io.ReadAll#1 as ra
+//@ ensures [an-unreadable-body-is-refused] ra.res1 != nil ==> result1 != nil && !ju.called
+//@ ensures [the-whole-body-must-be-one-json-value] ju.called && ju.res != nil ==> result1 != nil
+//@ ensures [accepted-only-after-the-whole-body-decoded] result1 == nil ==> ra.res1 == nil && ju.called && ju.res == nil
+//@ at ra assert [reads-the-request-body-to-its-end] ra.r == r.Body
+//@ at ju assert [decodes-everything-that-was-read] ju.data == ra.res0
 //@ ensures [non-empty-chain-or-error] result1 == nil ==> len(result0.Chain) >= 1
 
 //@ func addChainInternal
